@@ -809,11 +809,14 @@ func gen(tier string, emit func(engine.Case) bool) {
 		if !thorough && (ar.x == 2 || ar.x+ar.y == 2) {
 			mb = 2 // quick: three-block sequences only for the small label arities
 		}
+		if thorough && ar.x+ar.y <= 1 {
+			mb = 4 // thorough: four-block sequences for the small label arities
+		}
 		ok := structures(ar, mb, tier, func(b absconf.Body) bool {
 			if !emitConf(fmt.Sprintf("blk%d%d", ar.x, ar.y), b) {
 				return false
 			}
-			if len(b) <= 2 || thorough {
+			if len(b) <= 2 || (thorough && len(b) <= 3) {
 				// an attribute at every position
 				for pos := 0; pos <= len(b); pos++ {
 					if !thorough && pos != 0 && pos != len(b)-1 {
@@ -1007,10 +1010,10 @@ func main() {
 		ID:        "C03",
 		Title:     "Native and JSON syntaxes denote the same configuration",
 		Technique: "bounded exhaustive enumeration of abstract configurations x every admissible JSON encoding x hcldec spec table; differential native vs JSON on the real decoder, comparability decided by a reference reading of both syntaxes",
-		Rule: "abstract configurations: the empty body; every literal of a pool (23 quick / 41 thorough: numbers incl. fraction, exponent, 23-digit integer; strings incl. escapes, non-ASCII, '$'/'%' without template sequences; bool; null; nested lists/objects incl. an object key \"//\") as top-level attribute, beside a second attribute and inside a block body; all sequences of <= 3 blocks over types x,y for the label arities (x,y) in {00,10,01,11,20,21} with labels from {k,m} (thorough adds the label \"//\"; quick limits arities 11,20,21 to <= 2 blocks) each with a distinguishing body, with an attribute interleaved at the ends (quick) / every position (thorough); one or two x blocks over 7 nested bodies holding attributes and y blocks (nesting <= 2, with and without labels); 23 kind-clash configurations (attribute named like a block type, block named like an attribute, extra items). " +
-			"x every JSON encoding = the full choice tree of absconf.Encodings: decoration (none | \"//\" first | \"//\" last in every body object | one degenerate \"x\"/\"y\": [] or null property) x per repeated block {duplicate property name | join the latest property of the type} x per label level {split equal labels into duplicate names} x {object | array of objects with every order-preserving cut} per label level and for the top-level body x {body object | one-element array} per single block. " +
-			"x 40 hcldec specs (AttrSpec dynamic/typed/required, TupleSpec, DefaultSpec, LiteralSpec, BlockSpec, BlockListSpec with Min/Max, BlockSetSpec, BlockTupleSpec, BlockAttrsSpec, BlockMapSpec and BlockObjectSpec with 1 and 2 labels, BlockLabelSpec under list/block/tuple/set/map, ObjectSpec combinations, nested block specs); every configuration meets every spec, which yields the schema perturbations (missing required, extra attribute/block, wrong label count, attribute where a block is expected and vice versa). " +
-			"A case = (configuration, spec) and covers all encodings; non-trivial = at least one encoding comparable; distinct = distinct (spec, decoded value, content) observations.",
+		Rule: "abstract configurations (gen/absconf): the empty body; every literal of a pool (23 quick / 41 thorough: numbers incl. fraction, exponent, 23-digit integer; strings incl. escapes, non-ASCII, '$' and '%' without template sequences; bool; null; nested lists/objects incl. an object key \"//\") as top-level attribute, beside a second attribute and inside an unlabelled and a labelled block body; all sequences of <= 3 blocks over the types x,y for the label arities (x,y) in {00,10,01,11,20,21} with labels from {k,m}, each block with a distinguishing body (quick: arities 11,20,21 only <= 2 blocks; thorough: arities 00,10,01 up to 4 blocks and the label \"//\"), alone and with an attribute interleaved at the start and before the last block (quick, <= 2 blocks) / at every position (thorough, <= 3 blocks); one or two x blocks (unlabelled / labelled) over 7 nested bodies holding attributes and y blocks (nesting <= 2; quick: the smaller pairs); 23 kind-clash configurations (attribute named like a block type, block named like an attribute, items no spec mentions). " +
+			"x every admissible JSON encoding = the full choice tree of absconf.Encodings: per repeated block {new property with a duplicate name | joined to the latest property of its type, adjacent or across other blocks} x per label level {equal adjacent labels share a property | duplicate label names} x {object | array of objects with every order-preserving cut (above 3/4 properties only the one-property-per-element cut)} per label level and for the top-level body x {body object | one-element array} per single block; plus the decorations {\"//\" comment first | last in every body object | a degenerate \"x\"/\"y\": [] | \"x\"/\"y\": null property} on the three fixed structures plain, compact and arrays (thorough: on every structure for configurations of <= 4 items). Where the native reading already violates the schema only the fixed structures x all decorations are tried (nothing but 'also an error' can be checked there). " +
+			"x 42 hcldec specs (AttrSpec dynamic/typed/required, TupleSpec, DefaultSpec incl. required parts, LiteralSpec, BlockSpec, BlockListSpec with Min/Max, BlockSetSpec, BlockTupleSpec, BlockAttrsSpec, BlockMapSpec and BlockObjectSpec with 1 and 2 labels, BlockLabelSpec under list/block/tuple/set/map, ObjectSpec/TupleSpec combinations, nested block specs); every configuration meets every spec, which yields the schema perturbations (missing required, extra attribute/block, wrong label count, attribute where a block is expected and vice versa). " +
+			"A case = (configuration, spec) and covers all its encodings; non-trivial = at least one encoding comparable or both-must-error; distinct = distinct (spec, decoded value, content, comparability counts) observations.",
 		Assumptions: []string{
 			"go-cty value equality (RawEquals) and number parsing are trusted",
 			"hcldec.ImpliedSchema is cross-checked against the harness's own walk of the spec tree at start-up",
